@@ -72,6 +72,9 @@ Draw == /\ E.ev = "coin" /\ E.op = "draw" /\ E.role = role
         /\ absorbed >= 2                                         \* no challenge before the first commitment
         /\ Len(E.data) > 0
         /\ E.args[1] = t.ext                                     \* challenges live in the extension field
+        \* a challenge that is used depends on the message absorbed before it: with another digest absorbed in its place (the
+        \* history replayed on the real coin by the harness) the value drawn here is different
+        /\ (k + 1 <= Required(t, absorbed) => E.dep)
         /\ IF role = "P" THEN pdraws' = [pdraws EXCEPT ![absorbed] = Append(@, E.data)]
            ELSE /\ (k + 1 <= Required(t, absorbed) => (k + 1 <= Len(pdraws[absorbed]) /\ E.data = pdraws[absorbed][k + 1]))
                 /\ pdraws' = pdraws
@@ -91,6 +94,7 @@ Queries == /\ E.ev = "coin" /\ E.op = "ints" /\ E.role = role
            /\ E.data = nonce
            /\ E.args = <<t.q, lde>>
            /\ Len(E.ints) = t.q
+           /\ E.dep                                              \* the positions depend on the last absorbed message
            /\ IF role = "P" THEN pints' = E.ints /\ vdone' = vdone
               ELSE E.ints = pints /\ pints' = pints /\ vdone' = TRUE
            /\ UNCHANGED <<t, exp, nonce, lde, role, absorbed, k, pdraws, grindOK>>
